@@ -1,6 +1,7 @@
 import LinOp.Core.Basic
 import LinOp.Core.Parse
 import LinOp.C02.Model
+import LinOp.C02.Block
 /-! Line-protocol driver for the C02 dispatch model over `Rat`.
 One line = one expression program in prefix form; output = `ok <class tree> <rows> <cols> <values>`
 or `err <kind>`. -/
@@ -95,8 +96,25 @@ def showVals (r : Op Q) : String :=
   let f := tab (n := n) (m := m) fun i j => r.denote i.1 j.1
   showMat ((List.finRange n).map fun i => (List.finRange m).map fun j => f i j)
 
+/-- `cat` / `cat_rows` / `add_low_rank` lines (LinOp/C02/Block.lean). -/
+def pBlock : List String → Option (Except Err (Op Q))
+  | "cat" :: r => do
+      let (rw, r) ← pNat r; let (cls, r) ← pNat r; let (a, r) ← pOp r; let (b, r) ← pOp r
+      if r.isEmpty then pure (catOp (rw == 1) cls a b) else none
+  | "catrows" :: r => do
+      let (cls, r) ← pNat r; let (o, r) ← pNat r; let (B, r) ← pMat r; let (D, r) ← pMat r; let (a, r) ← pOp r
+      if r.isEmpty then pure (catRowsOp cls a o B D) else none
+  | "alr" :: r => do
+      let (k, r) ← pNat r; let (B, r) ← pMat r; let (a, r) ← pOp r
+      if r.isEmpty then pure (addLowRank a k B) else none
+  | _ => none
+
 def stepLine (_ : Unit) (line : String) : Unit × String :=
   let ws := words line
+  match pBlock ws with
+  | some (.ok r) => ((), s!"ok {r.tree} {r.rows} {r.cols} {showVals r}")
+  | some (.error e) => ((), s!"err {showErr e}")
+  | none =>
   match pProg ws with
   | some (p, []) =>
     match Impl.eval env p with
